@@ -159,6 +159,10 @@ def run(tier):
     chk = Check(PROP, tier)
     chk.model("MC_Vectors")
     chk.model("MC_HashObj")
+    # fill level / compression count / minimal padding for EVERY length and history (Apalache, inductive),
+    # at the production (64, 8) and the toy (4, 1) block and length-field sizes
+    chk.inductive("HashLen", cinit="CInit64")
+    chk.inductive("HashLen", cinit="CInit4")
     cmds = gen(chk, tier)
     chk.exec_and_validate("T_SM3", cmds, keyfn, cost=cost)
     return chk.finish(
